@@ -35,20 +35,15 @@ class Mesh3D(Mesh):
     def boundary_edges(self) -> ndarray:
         """Return an array of boundary edge indices."""
         facets = self.boundary_facets()
-        boundary_edges = np.sort(np.hstack(
-            tuple([np.vstack((self.facets[itr, facets],
-                              self.facets[(itr + 1) % self.facets.shape[0],
-                              facets]))
-                   for itr in range(self.facets.shape[0])])).T, axis=1)
-        edge_candidates = np.unique(self.t2e[:, self.f2t[0, facets]])
-        A = self.edges[:, edge_candidates].T
-        B = boundary_edges
-        dims = A.max(0) + 1
-        ix = np.where(np.isin(
-            np.ravel_multi_index(A.T, dims),  # type: ignore
-            np.ravel_multi_index(B.T, dims),  # type: ignore
-        ))[0]
-        return edge_candidates[ix]
+        # an edge of the neighbouring cell lies on the facet if and only if
+        # both of its end points are vertices of the facet
+        candidates = self.t2e[:, self.f2t[0, facets]]
+        vertices = self.facets[:, facets]
+        on_facet = np.ones(candidates.shape, dtype=bool)
+        for itr in range(2):
+            on_facet &= (self.edges[itr][candidates][:, None, :]
+                         == vertices[None, :, :]).any(axis=1)
+        return np.unique(candidates[on_facet])
 
     def interior_edges(self) -> ndarray:
         """Return an array of interior edge indices."""
